@@ -102,9 +102,10 @@ Definition ma_policy (ma : bytes) : option bytes :=
 Inductive icase :=
 | KTx (tx body_direct id_body id_tx : bytes)
       (* tx = Transaction.to_cbor(); body_direct = tx.transaction_body.to_cbor(); ids of body and tx *)
-| KDatum (ws outb : bytes) (direct : option bytes) (id : bytes)
+| KDatum (canon : bool) (ws outb : bytes) (direct : option bytes) (id : bytes)
       (* ws = TransactionWitnessSet(plutus_data=[d]).to_cbor(); outb = output with inline datum d;
-         direct = d.to_cbor() when d has one; id = datum_hash(d) *)
+         direct = d.to_cbor() when d has one; id = datum_hash(d); canon = false: d is a RawCBOR whose
+         bytes are not in shortest form (then the AST-level model is not applicable, only the bytes) *)
 | KAux (tx direct id : bytes)
       (* tx = Transaction(body, ws, True, aux).to_cbor(); direct = aux.to_cbor(); id = aux.hash() *)
 | KBuild (aux_in : option bytes) (tx : bytes)
@@ -161,13 +162,14 @@ Section Judge.
                v_need := [(32%nat, b_sl); m_pre c (OTxBody b_ast)] |}
         | _ => bad
         end
-    | KDatum ws outb direct id =>
+    | KDatum canon ws outb direct id =>
         match ws_field ws 4, out_wrapped outb 2 with
         | Some [(d_ast, d_sl)], Some (CA [CU 1; CTag 24 (CB inner)]) =>
             {| v_oracle := bytes_eqb id (H 32%nat d_sl) && bytes_eqb inner d_sl;
                v_corr := match direct with Some b => bytes_eqb b d_sl | None => true end
-                         && bytes_eqb (enc d_ast) d_sl && bytes_eqb id (m_id c H (ODatum d_ast));
-               v_need := [(32%nat, d_sl); m_pre c (ODatum d_ast)] |}
+                         && (if canon then bytes_eqb (enc d_ast) d_sl && bytes_eqb id (m_id c H (ODatum d_ast))
+                             else bytes_eqb id (H (c_datum_size c) d_sl));
+               v_need := [(32%nat, d_sl); (c_datum_size c, d_sl)] ++ (if canon then [m_pre c (ODatum d_ast)] else []) |}
         | _, _ => bad
         end
     | KAux tx direct id =>
